@@ -9,7 +9,7 @@
     order ([perm_oracle sh]). *)
 From Coq Require Import List NArith ZArith Bool Arith Permutation.
 From Verif Require Import Dag.Model Dag.Facts Dag.KahnProofs Dag.PushProofs Dag.LayoutProofs Dag.Summary
-     Gen.DagsSrc Dag.DagGen Dag.CircleLegacy.
+     Dag.Ops Dag.OpsProofs Gen.DagsSrc Dag.DagGen Dag.CircleLegacy.
 Import ListNotations.
 
 (** The checker accepts exactly the graphs all of whose edge targets are
@@ -264,4 +264,101 @@ Example bad_params_collide :
              end
   | MErr _ => False
   end.
+Proof. vm_compute. split; reflexivity. Qed.
+
+(** * Round 3: the derived-graph entry points (graph.go Remove / SubGraph /
+      Rename, closure.go Closure) *)
+
+(** Remove(x): the edges that touch neither end. *)
+Theorem C19_remove_edges : forall g x u v,
+  edge (g_remove g x) u v <-> u <> x /\ v <> x /\ edge g u v.
+Proof. exact remove_edge. Qed.
+Print Assumptions C19_remove_edges.
+
+(** SubGraph(f): the edges between nodes the filter accepts (a name that is
+    not a node never survives, so the result has no dangling target). *)
+Theorem C19_subgraph_edges : forall f g u v,
+  edge (g_subgraph f g) u v <-> f u = true /\ In v (keys g) /\ f v = true /\ edge g u v.
+Proof. exact subgraph_edge. Qed.
+Print Assumptions C19_subgraph_edges.
+
+(** The checker's verdict carries over: every SubGraph of a graph without
+    cycles is accepted, every Remove of an accepted graph is accepted, and a
+    cycle reported after a Remove is a cycle of the graph itself. *)
+Theorem C19_subgraph_accepted : forall sh, perm_oracle sh -> forall f g,
+  wf g -> acyclic g -> exists ls, check_dag sh (g_subgraph f g) = VOk ls.
+Proof. exact subgraph_accepted. Qed.
+Print Assumptions C19_subgraph_accepted.
+
+Theorem C19_remove_accepted : forall sh, perm_oracle sh -> forall g x,
+  wf g -> (exists ls, check_dag sh g = VOk ls) -> exists ls, check_dag sh (g_remove g x) = VOk ls.
+Proof. exact remove_accepted. Qed.
+Print Assumptions C19_remove_accepted.
+
+Theorem C19_remove_circle : forall sh, perm_oracle sh -> forall g x c,
+  wf g -> check_dag sh (g_remove g x) = VCircle c -> ~ acyclic g.
+Proof. exact remove_circle. Qed.
+Print Assumptions C19_remove_circle.
+
+(** Rename: an error from the callback ends the call whatever else the
+    callback returned; without one, "missing in keys" exactly for a dangling
+    target; with an injective callback the edges are the images of the edges. *)
+Theorem C19_rename_callback_error : forall rn err g k,
+  In k (keys g) -> err k = true -> g_rename rn err g = RnErrF.
+Proof. exact rename_callback_error. Qed.
+Print Assumptions C19_rename_callback_error.
+
+Theorem C19_rename_missing_iff : forall rn err g,
+  wf g -> (forall k, In k (keys g) -> err k = false) ->
+  (g_rename rn err g = RnMissing <-> ~ targets_exist g).
+Proof. exact rename_missing_iff. Qed.
+Print Assumptions C19_rename_missing_iff.
+
+Theorem C19_rename_edges : forall rn err g g' u v,
+  wf g -> g_rename rn err g = RnOk g' ->
+  (forall a b, In a (keys g) -> In b (keys g) -> rn a = rn b -> a = b) ->
+  In u (keys g) -> In v (keys g) ->
+  (edge g' (rn u) (rn v) <-> edge g u v).
+Proof. exact rename_edge_inj. Qed.
+Print Assumptions C19_rename_edges.
+
+(** Closure(m, nodes): the given nodes and every node that has a path to one
+    of them and a path from one of them; for names that are nodes the
+    result is a map of the induced sub-graph (the panic after NewMap is
+    unreachable), for any other name Closure panics. *)
+Theorem C19_closure_nodes : forall sh, perm_oracle sh -> forall g, wf g ->
+  forall m, new_map sh g = MOk m -> forall nodes v,
+  In v (closure_set m nodes) <->
+  In v (keys g) /\
+  (In v nodes \/ ((exists a, In a nodes /\ path g v a) /\ (exists b, In b nodes /\ path g b v))).
+Proof. exact closure_set_spec. Qed.
+Print Assumptions C19_closure_nodes.
+
+Theorem C19_closure_total : forall sh, perm_oracle sh -> forall g, wf g ->
+  forall m, new_map sh g = MOk m -> forall nodes,
+  forallb (is_key g) nodes = true ->
+  exists m', closure sh m nodes = Some (MOk m') /\ m_g m' = closure_graph m nodes.
+Proof. exact closure_never_panics. Qed.
+Print Assumptions C19_closure_total.
+
+Theorem C19_closure_edges : forall m nodes u v,
+  edge (closure_graph m nodes) u v <->
+  In u (closure_set m nodes) /\ In v (closure_set m nodes) /\ edge (m_g m) u v.
+Proof. exact closure_graph_edge. Qed.
+Print Assumptions C19_closure_edges.
+
+(** a -> b -> c -> d with the shortcut a -> d: what lies between a and d is
+    everything; between b and b only b. *)
+Example ex_ops_graph : graph := [(0, [1; 3]); (1, [2]); (2, [3]); (3, []); (4, [])]%N.
+Example ex_closure :
+  match new_map sh_id ex_ops_graph with
+  | MOk m => closure_set m [0; 3]%N = [0; 1; 2; 3]%N /\ closure_set m [1]%N = [1]%N /\
+             closure sh_id m [9]%N = None
+  | MErr _ => False
+  end.
+Proof. vm_compute. repeat split; reflexivity. Qed.
+
+Example ex_remove_subgraph :
+  g_remove ex_ops_graph 1 = [(0, [3]); (2, [3]); (3, []); (4, [])]%N /\
+  g_subgraph (fun k => negb (N.eqb k 2)) ex_ops_graph = [(0, [1; 3]); (1, []); (3, []); (4, [])]%N.
 Proof. vm_compute. split; reflexivity. Qed.
